@@ -118,6 +118,20 @@ def generate(seed, tier="quick"):
             val = ["list", [val, ["int", 0]]]
         f["sites"]["kw1"] = {"op": krng.choice(["eq", "eq", "in"]), "place": krng.choice(["direct", "func"]), "arg": None, "prev": None}
         krng.choice(f["tests"])["events"].append({"t": "cmp", "eid": "ekw1", "site": "kw1", "vals": [val], "style": krng.choice(["assert", "rec"])})
+    orng = sub(seed, "odd-constructors")
+    if orng.random() < 0.15:
+        # constructor shapes at the edge of the supported types: an attrs class with a private attribute (its __init__ argument has another
+        # name), a dataclass field that is no constructor argument, IntFlag values with bits that have no name, complex numbers with an infinite part
+        f = prog["files"][0]
+        n = orng.randint(0, 15)
+        val = orng.choice([["raw", f"ATP(x={orng.randint(0, 3)})"], ["raw", f"ATP(x=[1], z={orng.randint(0, 2)})"], ["raw", f"DCI(x={orng.randint(0, 3)})"],
+                           ["raw", f"IPerm({n})"], ["raw", f"[IPerm({n}), IPerm({orng.randint(0, 3)})]"], ["raw", 'complex("inf")'], ["raw", '[complex("-inf"), 1.5]'],
+                           ["raw", 'complex(1, float("inf"))'], ["raw", f'{{"k": ATP(x=DCI(x=1), z=IPerm({n}))}}']])
+        f["sites"]["oc1"] = {"op": orng.choice(["eq", "eq", "in", "item"]), "place": orng.choice(["direct", "func"]), "arg": None, "prev": None}
+        e = {"t": "cmp", "eid": "eoc1", "site": "oc1", "vals": [val], "style": orng.choice(["assert", "rec"])}
+        if f["sites"]["oc1"]["op"] == "item":
+            e["key"], e["cop"] = ["str", "k"], "eq"
+        orng.choice(f["tests"])["events"].append(e)
     wrng = sub(seed, "twin")
     if wrng.random() < 0.1:
         # a second module with the same text layout (same helper functions on the same lines): call sites of different files stay apart
